@@ -63,12 +63,13 @@ def seeded():
            '|-------------|--------------------|-------------|------------|']
     n = {'own': 0, 'other': 0, 'missed': 0}
     per_round = {1: dict(n), 2: dict(n), 3: dict(n), 4: dict(n), 5: dict(n),
-                 6: dict(n), 7: dict(n), 8: dict(n), 9: dict(n), 10: dict(n), 11: dict(n), 12: dict(n)}
+                 6: dict(n), 7: dict(n), 8: dict(n), 9: dict(n), 10: dict(n), 11: dict(n), 12: dict(n), 13: dict(n)}
     for p in sorted(glob.glob('/verif/seeded/*/meta.json')):
         d = json.load(open(p))
         name = os.path.basename(os.path.dirname(p))
         h = d.get('history', '')
-        rnd = 12 if '(seeded round 12' in h else \
+        rnd = 13 if '(seeded round 13' in h else \
+            12 if '(seeded round 12' in h else \
             11 if '(seeded round 11' in h else \
             10 if '(seeded round 10' in h else \
             9 if '(seeded round 9' in h else \
@@ -89,7 +90,7 @@ def seeded():
             name, rnd, d['needs_to_manifest'],
             ' '.join(d['expected']['rules']), txt))
     tot = []
-    for rnd in (1, 2, 3, 4, 5, 6, 7, 8, 9, 10, 11, 12):
+    for rnd in (1, 2, 3, 4, 5, 6, 7, 8, 9, 10, 11, 12, 13):
         c = per_round[rnd]
         tot.append('round %d: %d changes, %d detected on arrival by the '
                    'property\'s own check, %d only by another property\'s '
